@@ -195,6 +195,7 @@ inductive Op where
   | poll (id : String)
   | eof (id : String)
   | gate (id : String) (shut : Bool)
+  | gateStep (id : String)                -- flow control lets one held response through
   | expire
   | drain (id : String)
 
@@ -205,6 +206,7 @@ def step (st : Sub.State) : Op → Sub.State
   | .poll id => Sub.poll st id
   | .eof id => Sub.eof st id
   | .gate id shut => setGate st id shut
+  | .gateStep id => stepGate st id
   | .expire => Sub.expire st
   | .drain id => updateSub st id (fun x => { x with out := [], gatedSinceDrain := x.gateShut })
 
@@ -244,11 +246,29 @@ theorem step_ok (st : Sub.State) (op : Op) (h : AllOK st) : AllOK (step st op) :
         · exact ⟨hout, by simp⟩
         · exact ⟨hout, by simp⟩
       · exact ⟨hs.1, hs.2⟩
+  | gateStep id =>
+    apply updateSub_ok st id _ h
+    intro s hs
+    split
+    · split
+      · rename_i r hb
+        have hr := hs.2 r hb
+        have hout : ∀ x ∈ s.out ++ [(r, s.gatedSinceDrain)], respOK s.acl x.1 := by
+          intro x hx
+          rcases List.mem_append.1 hx with h1 | h1
+          · exact hs.1 x h1
+          · simp only [List.mem_singleton] at h1; rw [h1]; exact hr
+        simp only
+        split
+        · exact ⟨hout, by simp⟩
+        · exact pumpAll_ok _ ⟨hout, by simp⟩
+      · exact hs
+    · exact hs
   | expire =>
     apply map_ok h
     intro s hs
     split
-    · exact ⟨hs.1, hs.2⟩
+    · exact ⟨hs.1, by simp⟩
     · exact hs
   | drain id =>
     apply updateSub_ok st id _ h
